@@ -141,6 +141,9 @@ func getBidderNodeAddress(digest, signature string) (*common.Address, error) {
 	digestBytes := common.FromHex(digest)
 	signatureBytes := common.FromHex(signature)
 
+	if len(signatureBytes) != crypto.SignatureLength {
+		return nil, errors.Errorf("invalid bid signature length %d (want %d)", len(signatureBytes), crypto.SignatureLength)
+	}
 	if signatureBytes[64] == 27 || signatureBytes[64] == 28 {
 		signatureBytes[64] -= 27 // Transform V from 27/28 to 0/1
 	}
